@@ -214,7 +214,52 @@ func genC14(r *Rand, tier string) *Case {
 			left -= p
 		}
 	}
+	limit := 0
+	if variant == "seeded" && r.Chance(1, 6) {
+		// a small message limit and values of its order of magnitude: every
+		// CopyData message fits, one item (and what is buffered with it) does not
+		limit = r.PickInt(256, 1024)
+		ncols = r.Range(1, 3)
+		cols = make([]ColSpec, ncols)
+		for i := range cols {
+			cols[i] = ColSpec{Name: fmt.Sprintf("c%d", i), OID: []uint32{pgwire.OIDText, pgwire.OIDBytea}[r.Intn(2)]}
+		}
+		rows, want = nil, nil
+		for n := r.Range(1, 4); n > 0; n-- {
+			row := make([][]byte, ncols)
+			var sb strings.Builder
+			fmt.Fprintf(&sb, "n=%d", ncols)
+			for i, cl := range cols {
+				size := r.PickInt(3, limit/2, limit-40, limit, limit+1, 2*limit, 5*limit)
+				var v pgwire.Value
+				if cl.OID == pgwire.OIDText {
+					v = Val{G: "string", S: r.Ident(size)}.Canon(cl.OID)
+				} else {
+					v = Val{G: "bytes", B: r.Bytes(size)}.Canon(cl.OID)
+				}
+				enc, err := pgwire.Encode(cl.OID, 1, v)
+				if err != nil {
+					panic(err)
+				}
+				row[i] = enc
+				fmt.Fprintf(&sb, " [%s]", v.String())
+			}
+			rows = append(rows, row)
+			want = append(want, sb.String())
+		}
+		stream = pgwire.EncodeBinaryCopyExt(rows, trailer, ext)
+		pieces = nil
+		for left := len(stream); left > 0; {
+			p := r.PickInt(1, 19, limit/2, limit-9, limit-8)
+			pieces = append(pieces, p)
+			left -= p
+		}
+		variant = "small-limit"
+	}
 	c := c14Case(cols, stream, pieces, want, end, variant)
+	if limit > 0 {
+		c.Server.Limit = limit
+	}
 	c.Conns[0].Cuts = genCuts(r)
 	return c
 }
@@ -288,7 +333,7 @@ func checkC14(x *Exec, c *Case) ([]Violation, bool) {
 func init() {
 	register(&Prop{
 		ID: "C14", Level: "exploration", QuickS: 25, ThoroughS: 420,
-		Rule:       "binary COPY streams (signature, flags, header extension area of 0-40 bytes, tuples, optional -1 trailer) produced by the independent encoder for tables of 1-5 columns over the covered types and 0-6 rows with NULLs anywhere; the chunking into CopyData messages is the schedule: for three short table shapes (stream <= 48 bytes), with and without trailer, EVERY split into 2 and into 3 CopyData messages is enumerated, plus whole-stream and one-byte-per-message; seeded cases use 1-byte messages, cuts inside the header, cuts exactly at row boundaries, random pieces incl. empty CopyData messages, on top of transport segmentation; corruptions: field count +1 / -1 / 0x7FFF / negative other than the -1 trailer, value length beyond the stream, truncated last row, garbage after the trailer; the rows returned by BinaryCopyReader.Read are compared with the encoded rows (value by value through the canonical form), the end of data must be io.EOF, a corruption must be an error and never a row, and the query after the COPY must be served; non-trivial = the row reader was driven at least once; distinct = distinct case content hashes",
+		Rule:       "binary COPY streams (signature, flags, header extension area of 0-40 bytes, tuples, optional -1 trailer) produced by the independent encoder for tables of 1-5 columns over the covered types and 0-6 rows with NULLs anywhere; the chunking into CopyData messages is the schedule: for three short table shapes (stream <= 48 bytes), with and without trailer, EVERY split into 2 and into 3 CopyData messages is enumerated, plus whole-stream and one-byte-per-message; seeded cases use 1-byte messages, cuts inside the header, cuts exactly at row boundaries, random pieces incl. empty CopyData messages, on top of transport segmentation; corruptions: field count +1 / -1 / 0x7FFF / negative other than the -1 trailer, value length beyond the stream, truncated last row, garbage after the trailer; the rows returned by BinaryCopyReader.Read are compared with the encoded rows (value by value through the canonical form), the end of data must be io.EOF, a corruption must be an error and never a row, and the query after the COPY must be served; small message limits (256/1024) with fields of 0.5-5x the limit cut into CopyData messages that each fit; non-trivial = the row reader was driven at least once; distinct = distinct case content hashes",
 		Exhaustive: "all 2-piece and 3-piece splits of the encoded stream for 3 table shapes x {trailer, no trailer} (streams <= 48 bytes)",
 		Components: e1Components, Assumptions: commonAssumptions,
 		Fixed: c14Fixed, Gen: genC14, Check: checkC14,
